@@ -334,3 +334,9 @@ Fixpoint prun (st : dmap) (h : list (N * pevent)) : dmap :=
 (* register(): `reg.Valid = true; r.registerForDetector(reg)`; sendToDetector ignores what
    client.Publish returns.  Outcome for the registration: (usable by the station, known to the detector). *)
 Definition register_outcome (publish_ok : bool) : bool * bool := (true, publish_ok).
+
+(* ------------------------------------------------------------------ the shutdown sequence *)
+(* cmd/application/main.go: `defer regManager.Cleanup()` ... signal ... `cancel()` ... `wg.Wait()` ... return.
+   Cleanup therefore runs after the pipeline's context has been cancelled.  It publishes with a
+   context of its own (context.Background()), so what it publishes does not depend on that. *)
+Definition cleanup (pipeline_ctx_cancelled : bool) : list s2d := [clear_msg].
